@@ -105,7 +105,15 @@ func (x *Exec) ident(st *State, e *ast.Ident) Term {
 				st.vars[o] = z
 				return z
 			}
-			return x.c().global(o)
+			g := x.c().global(o)
+			if init := x.w.globalInit[o]; init != nil && x.w.isImmutable(o) && o.Pkg() == x.u.pkg.Types && !x.c().declared["ginit."+g.S] {
+				// an immutable package-level variable equals its initialiser expression
+				x.c().declared["ginit."+g.S] = true
+				v := x.expr(st, init)
+				x.c().axiom(tEq(g, x.coerce(v, g.Sort)))
+				x.c().note("immutable package-level variable equals its initialiser: " + o.Name())
+			}
+			return g
 		}
 		if o.Parent() == o.Pkg().Scope() || (o.Pkg() != nil && o.Parent() == nil && !o.IsField()) {
 			return x.c().global(o)
